@@ -49,6 +49,8 @@ type WalkCase struct {
 	Visits []WalkVisit   `json:"visits"`
 	Loads  []int         `json:"loads"`
 	Err    []interface{} `json:"err"`
+	// Compiles: Selector!Compiles of the selector (absent in old case files: true)
+	Compiles *bool `json:"compiles,omitempty"`
 }
 
 // Graph is a concretised graph: real blocks in a real store.
@@ -378,6 +380,12 @@ func ReplayWalk(cs *WalkCase, o WalkOpts) (*run.Finding, int) {
 	var cerr error
 	if p := model.Safe(func() { sel, cerr = selector.CompileSelector(dmt) }); p != nil {
 		return fail("selector.CompileSelector", "Compiles:ok", "panic", fmt.Sprint(p)), 1
+	}
+	if cs.Compiles != nil && !*cs.Compiles {
+		if cerr == nil {
+			return fail("selector.CompileSelector", "Compiles:rejected", "accepted", fmt.Sprintf("selector %v", cs.Sel)), 1
+		}
+		return nil, 1
 	}
 	if cerr != nil {
 		return fail("selector.CompileSelector", "Compiles:ok", "rejected", cerr.Error()), 1
